@@ -291,4 +291,66 @@ theorem parseLoop_letters : ∀ (cs acc : List Char) (s0 : Nat) (letters : List 
             · rw [ih _ _ _ _ h]; simp [hup]
       · cases h
 
+/-- acceptance implies denotation: the letters of `s` form a name with value `r + 1`, the mask
+fits below the last letter, and `s` (with `.` read as `•`) is exactly the printed form -/
+theorem parse_ok (s : List Char) (r sp : Nat) (h : parse s = .ok (r, sp)) :
+    s.filter isUpper ≠ [] ∧
+    bij (s.filter isUpper) = r + 1 ∧ r < 2 ^ 128 ∧
+    sp < 2 ^ ((s.filter isUpper).length - 1) ∧
+    normalize s = interleave sp 0 (s.filter isUpper) := by
+  unfold parse at h
+  cases hl : parseLoop [] 0 s with
+  | panic q => rw [hl] at h; cases h
+  | err e => rw [hl] at h; cases h
+  | ok res =>
+    obtain ⟨letters, sp'⟩ := res
+    rw [hl] at h
+    simp only at h
+    split at h
+    · cases h
+    · split at h
+      · cases h
+      · rename_i hbl
+        cases hr : Rune.parse letters with
+        | err e => rw [hr] at h; cases h
+        | panic q => rw [hr] at h; cases h
+        | ok v =>
+          rw [hr] at h
+          simp only [Outcome.ok.injEq, Prod.mk.injEq] at h
+          obtain ⟨rfl, rfl⟩ := h
+          -- the string starts with a letter
+          cases s with
+          | nil =>
+            simp [parseLoop] at hl
+            obtain ⟨rfl, rfl⟩ := hl
+            simp [bitLen] at hbl
+          | cons c cs =>
+            simp only [parseLoop] at hl
+            split at hl
+            · rename_i hup
+              obtain ⟨h1, h2, _, _, h5⟩ := parseLoop_ok cs [c] 0 letters sp' (by simp)
+                (by simp) hl
+              simp only [List.length_singleton, Nat.sub_self, Nat.zero_testBit, Bool.false_eq_true,
+                if_false, List.nil_append, List.reverse_singleton, List.singleton_append] at h1 h5
+              have hfil : (c :: cs).filter isUpper = letters := by
+                rw [h1]; simp [hup]
+              rw [hfil]
+              have hL : letters.length = (cs.filter isUpper).length + 1 := by rw [h1]; simp
+              have hsp : sp' < 2 ^ (letters.length - 1) := by
+                apply lt_of_bitLen_lt
+                have : letters.length - 1 + 1 = letters.length := by omega
+                rw [this]; omega
+              rcases (Rune.parse_ok_iff letters v).mp hr with ⟨h0, _⟩ | ⟨hne, _, hb, hv⟩
+              · rw [h0] at hL; simp at hL
+              · refine ⟨hne, hb, hv, hsp, ?_⟩
+                rw [normalize_cons_upper hup, h5, h1]
+                have hbit : sp'.testBit (0 + (cs.filter isUpper).length) = false := by
+                  apply Nat.testBit_lt_two_pow
+                  rw [hL] at hsp
+                  simpa using hsp
+                exact (interleave_eq_loose sp' _ c 0 hbit).symm
+            · split at hl
+              · simp at hl
+              · cases hl
+
 end Ord.SpacedRune
